@@ -117,6 +117,9 @@ def check_case(ctx, case, tmp=TMP):
             ctx.count("history-raised(skipped):" + case["route"])
             ctx.notes.append("history raised, case skipped: %s" % u)
             return []
+        if u.src is not None and not ctx.driver.ask({"op": "domain", "src": u.src})["in_domain"]:
+            ctx.count("raised on a table outside the theorems' domain (not a violation):" + u.stage)
+            return []
         ctx.fail({"case": case}, "C01.%s-raised" % u.stage, ["route=" + case["route"], "writer=" + case["writer"],
                                                             "exc=" + u.exc_name], detail={"what": str(u), "src": u.src})
         return []
